@@ -129,7 +129,7 @@ mod p {
         "interrupted_was_transparent",
         "slice_path_rejects_stream_and_reader_rejects_too",
         "pipe_writer_output_read_back",
-        "buffering_writer_needed_flush",
+        "buffering_writer_was_flushed_by_the_library",
         "fault_on_first_byte_of_next_message",
     ];
 }
@@ -224,6 +224,7 @@ fn write_chain(c: &WCfg, out: &mut Outcome<C11Trace>) -> Result<Vec<u8>, Fail> {
     out.extra[X_WRITE_CHAINS] += 1;
     let mut writer = Some(w);
     let mut expect: Vec<u8> = Vec::new();
+    let mut flushed_all = false;
     let total: Vec<u8> = c.plains.concat();
     let res = (|| {
         for (i, m) in c.msgs.iter().enumerate() {
@@ -275,18 +276,22 @@ fn write_chain(c: &WCfg, out: &mut Outcome<C11Trace>) -> Result<Vec<u8>, Fail> {
             match r {
                 Ok(w) => {
                     expect.extend_from_slice(&c.plains[i]);
-                    if l.wire != expect {
+                    // what the writer *received* (accepted) — the statement does not say who
+                    // flushes; a failing flush, if one is attempted, is judged separately
+                    if l.accepted != expect {
                         return Err(Fail {
                             clause: "writer-exact-encoding",
                             detail: format!(
-                                "after writing message {i} without any fault the wire holds [{}] ({} bytes), the plain encoding is [{}] ({} bytes){}",
-                                hexs(&l.wire),
-                                l.wire.len(),
+                                "after writing message {i} without any fault the writer has received [{}] ({} bytes), the plain encoding is [{}] ({} bytes)",
+                                hexs(&l.accepted),
+                                l.accepted.len(),
                                 hexs(&expect),
-                                expect.len(),
-                                if c.buffering { " — buffering device: bytes reach the wire on flush" } else { "" }
+                                expect.len()
                             ),
                         });
+                    }
+                    if c.buffering && l.wire == expect {
+                        flushed_all = true;
                     }
                     writer = Some(w);
                 }
@@ -321,7 +326,7 @@ fn write_chain(c: &WCfg, out: &mut Outcome<C11Trace>) -> Result<Vec<u8>, Fail> {
     }
     if l.interrupted > 0 {
         out.fault(f::W_INTR);
-        if res.is_ok() && !l.any_fault_fired() && l.wire == total {
+        if res.is_ok() && !l.any_fault_fired() && l.accepted == total {
             out.probe(p::INTERRUPTED_TRANSPARENT);
         }
     }
@@ -331,11 +336,11 @@ fn write_chain(c: &WCfg, out: &mut Outcome<C11Trace>) -> Result<Vec<u8>, Fail> {
     if l.max_chain >= 3 {
         out.probe(p::WRITE_ALL_3_CALLS);
     }
-    if c.buffering && res.is_ok() && !l.any_fault_fired() {
+    if c.buffering && res.is_ok() && !l.any_fault_fired() && flushed_all {
         out.probe(p::BUFFERING_WRITER);
     }
     ev_dev(out, "writer", &l.events);
-    res.map(|_| l.wire.clone())
+    res.map(|_| l.accepted.clone())
 }
 
 // ---- reader side ------------------------------------------------------------------------------------
